@@ -8,7 +8,15 @@ export GOFLAGS=-mod=mod GOPROXY=off GOSUMDB=off GOTOOLCHAIN=local
 export VERIF_DIR="${VERIF_DIR:-/verif}"
 cd "$VERIF_DIR/sim" || exit 2
 mkdir -p "$VERIF_DIR/bin" "$VERIF_DIR/evidence" "$VERIF_DIR/replays"
-if ! go build -o "$VERIF_DIR/bin/gotsim" . ; then
+# VERIF_REPO (default /repo): build against another checkout of the library, e.g. the
+# snapshot `vp run --with-repo` provides, so that a long background run is not disturbed
+# by patches applied to /repo meanwhile. Registered commands always use /repo itself.
+MODFLAG=""
+if [ -n "$VERIF_REPO" ] && [ "$VERIF_REPO" != "/repo" ]; then
+  sed "s|=> /repo|=> $VERIF_REPO|" go.mod > go.alt.mod && cp go.sum go.alt.sum
+  MODFLAG="-modfile=go.alt.mod"
+fi
+if ! go build $MODFLAG -o "$VERIF_DIR/bin/gotsim" . ; then
   echo "build failed (not a verdict about the property)" >&2
   exit 2
 fi
